@@ -711,4 +711,117 @@ def r4_progress(a, tier):
     return rep
 
 
-RULES = [r_chain, r1_frames, r1b_semantic_failures, r1c_control_containment, r2_cst, r3_ordered_choice, r4_progress]
+def r5_state_stack(a, tier):
+    from ..minieval import Obj, Unsupported
+    from ..modelinterp import Hook, ModelInterp, Stub
+    rep = RuleReport(
+        'C01.R5',
+        'the parse-state stack, interpreted on model cursors (ParseState / ParseStateStack of tatsu/contexts/state.py): a pushed or '
+        'new frame works on its own cursor (moving it does not move the enclosing frame: undo() restores position, CST and names), '
+        'starts with cutseen False and an empty CST; push() inherits the names by copy, new() starts without names; merge() hands '
+        'position, names, alerts to the enclosing frame and splices the CST; pop() hands over the position only',
+        floor=4,
+    )
+    SS = 'tatsu.contexts.state.ParseStateStack'
+    a.p.cls(SS)
+
+    class Cur(Obj):
+        pass
+
+    class AstM(dict):
+        pass
+
+    def mk_cursor(pos):
+        c = Cur(pos=pos)
+        return c
+
+    def methods(recv, name, args, kwargs):
+        if isinstance(recv, Cur) and name == 'clone':
+            return mk_cursor(recv.pos)
+        if isinstance(recv, Cur) and name == 'goto':
+            object.__setattr__(recv, 'pos', args[0])
+            return None
+        return NotImplemented
+
+    def fresh():
+        it = ModelInterp(a, {'AST': Hook(lambda base=None: AstM(base or {})), 'closedlist': CL})
+        it.methods = methods
+        st = it.construct(__import__('sa.modelinterp', fromlist=['ClassRef']).ClassRef(SS), [mk_cursor(3)], {})
+        return it, st
+
+    def top(it, st):
+        return it.get_attr(st, 'state')
+
+    def snap(frame):
+        at = frame._attrs
+        return {'pos': at['cursor'].pos, 'cst': _shape(at['cst']), 'names': dict(at['ast']), 'cutseen': at['cutseen'], 'alerts': len(at['alerts'])}
+
+    def call(it, obj, name, *args):
+        return it.apply(it.get_attr(obj, name), list(args), {})
+
+    e1, e2 = Elem(51), Elem(52)
+    try:
+        for opener in ('push', 'new'):
+            # -- a frame is isolated; undo restores everything
+            it, st = fresh()
+            base = top(it, st)
+            call(it, base, 'append', e1)
+            base._attrs['ast']['n'] = e1
+            before = snap(base)
+            child = call(it, st, opener)
+            c0 = snap(child)
+            call(it, child._attrs['cursor'], 'goto', 9) if False else methods(child._attrs['cursor'], 'goto', [9], {})
+            call(it, child, 'append', e2)
+            child._attrs['ast']['m'] = e2
+            child._attrs['cutseen'] = True
+            mid = snap(base)
+            call(it, st, 'undo')
+            after = snap(top(it, st))
+            ok = (mid == before == after and top(it, st) is base and c0['pos'] == 3 and c0['cst'] == 'None' and c0['cutseen'] is False
+                  and c0['names'] == ({'n': e1} if opener == 'push' else {}) and child._attrs['ast'] is not base._attrs['ast']
+                  and child._attrs['cursor'] is not base._attrs['cursor'])
+            rep.add({'case': f'{opener}(); work in the frame; undo()', 'enclosing_before': str(before), 'during': str(mid), 'after': str(after),
+                     'new_frame': str(c0), 'ok': ok})
+            if not ok:
+                rep.fail(f'{SS}.{opener}', f'isolation:{opener}', f'{opener}() then work in the new frame then undo(): the enclosing frame was '
+                         f'{before}, is {mid} while the inner frame works and {after} after undo(); the new frame started as {c0}; required: '
+                         f'enclosing frame untouched, new frame at the same position with empty CST, cutseen False, '
+                         f'{"a copy of the names" if opener == "push" else "no names"} and its own cursor', a.p.func(f'{SS}.{opener}').loc)
+        # -- merge
+        it, st = fresh()
+        base = top(it, st)
+        call(it, base, 'append', e1)
+        child = call(it, st, 'push')
+        methods(child._attrs['cursor'], 'goto', [9], {})
+        call(it, child, 'append', e2)
+        child._attrs['ast']['m'] = e2
+        child._attrs['cutseen'] = True
+        child._attrs['alerts'].append('al')
+        call(it, st, 'merge')
+        got = snap(top(it, st))
+        ok = top(it, st) is base and got == {'pos': 9, 'cst': 'O[e51,e52]', 'names': {'m': e2}, 'cutseen': False, 'alerts': 1}
+        rep.add({'case': 'push(); element e52, name m, cut, alert at 9; merge()', 'enclosing_after': str(got), 'ok': ok})
+        if not ok:
+            rep.fail(f'{SS}.merge', 'merge', f'after push(), an element, a name, a cut and an alert in the inner frame at position 9, merge() '
+                     f'leaves the enclosing frame as {got}; required pos 9, CST [e51,e52] (spliced), names of the inner frame, cutseen '
+                     f'False (a cut is not handed on by merge), one alert', a.p.func(f'{SS}.merge').loc)
+        # -- new + pop
+        it, st = fresh()
+        base = top(it, st)
+        call(it, base, 'append', e1)
+        child = call(it, st, 'new')
+        methods(child._attrs['cursor'], 'goto', [9], {})
+        call(it, child, 'append', e2)
+        prev = call(it, st, 'pop')
+        got = snap(top(it, st))
+        ok = top(it, st) is base and prev is child and got == {'pos': 9, 'cst': 'e51', 'names': {}, 'cutseen': False, 'alerts': 0}
+        rep.add({'case': 'new(); element at 9; pop()', 'enclosing_after': str(got), 'ok': ok})
+        if not ok:
+            rep.fail(f'{SS}.pop', 'pop', f'new(), an element at position 9, pop(): the enclosing frame is {got}; required: position 9 handed '
+                     f'over, CST and names untouched, the popped frame returned', a.p.func(f'{SS}.pop').loc)
+    except Unsupported as e:
+        raise AnalysisError(f'cannot interpret the parse-state stack: {e}') from e
+    return rep
+
+
+RULES = [r_chain, r1_frames, r1b_semantic_failures, r1c_control_containment, r2_cst, r3_ordered_choice, r4_progress, r5_state_stack]
